@@ -4,6 +4,7 @@ package main
 
 import (
 	"fmt"
+	"sort"
 	"go/constant"
 	"go/types"
 	"strconv"
@@ -577,6 +578,15 @@ func (c *FnCtx) evBinary(x *eBinary, env *evalEnv) *Val {
 		return &Val{T: T, S: app("+", as, bs)}
 	case "-", "*":
 		return &Val{T: T, S: app(x.op, as, bs)}
+	case "|", "&":
+		// bit operations are uninterpreted (same symbol as the executor uses)
+		srt := "Int"
+		if T != nil {
+			srt = c.sortOf(T)
+		}
+		f := "bop." + sym(x.op) + "." + sym(srt)
+		c.declare(f, fmt.Sprintf("(declare-fun %s (%s %s) %s)", f, srt, srt, srt))
+		return &Val{T: T, S: app(f, as, bs)}
 	case "/":
 		return &Val{T: T, S: app("div", as, bs)}
 	case "%":
@@ -860,6 +870,42 @@ func (c *FnCtx) evCall(x *eCall, env *evalEnv) *Val {
 		case "tag":
 			v := c.ev(x.args[0], env)
 			return c.mk(intT, app("itag", v.S))
+		case "preserved":
+			// preserved(<heap designator>): every object that existed at function entry
+			// has the same content in that heap as at entry
+			d := strings.TrimSpace(exprTextFull(x.args[0]))
+			var hs map[string]bool
+			if d == "all" {
+				// every heap the function has touched so far
+				hs = map[string]bool{}
+				for k := range c.state(env).heaps {
+					if !strings.HasPrefix(k, "IT|") {
+						hs[k] = true
+					}
+				}
+			} else {
+				var err error
+				hs, err = c.heapDesignators(env.pkg, []string{d})
+				if err != nil {
+					c.efail("preserved(%s): %v", d, err)
+				}
+			}
+			var conj []Term
+			var ks []string
+			for k := range hs {
+				ks = append(ks, k)
+			}
+			sort.Strings(ks)
+			for _, k := range ks {
+				srt := c.heapSort[k]
+				cur := c.heapGet(c.state(env), k, srt)
+				init := c.heapGet(&State{heaps: map[string]Term{}}, k, srt)
+				if cur == init {
+					continue
+				}
+				conj = append(conj, fmt.Sprintf("(forall ((r Int)) (! (=> (< r %s) (= (select %s r) (select %s r))) :pattern ((select %s r))))", c.entry.nextRef, cur, init, cur))
+			}
+			return c.mk(boolT, and(conj...))
 		case "isfresh":
 			// isfresh(s): the backing array of slice s was allocated during this call (or s is nil)
 			v := c.ev(x.args[0], env)
@@ -1149,4 +1195,25 @@ func (c *FnCtx) mapLen(st *State, m *Val) Term {
 		c.assume(app("<=", "0", t))
 	}
 	return t
+}
+
+// exprTextFull renders simple designator expressions back to text: elems(*Node), T.f, map(K;V).
+func exprTextFull(e specExpr) string {
+	switch x := e.(type) {
+	case *eIdent:
+		return x.name
+	case *eSel:
+		return exprTextFull(x.x) + "." + x.name
+	case *eType:
+		return x.typ.String()
+	case *eUnary:
+		return x.op + exprTextFull(x.x)
+	case *eCall:
+		var as []string
+		for _, a := range x.args {
+			as = append(as, exprTextFull(a))
+		}
+		return exprTextFull(x.fun) + "(" + strings.Join(as, ";") + ")"
+	}
+	return "?"
 }
